@@ -357,7 +357,8 @@ func (gr *WordIterator) Next() bool {
 	}
 
 	if gr.inWord { // we are have reached the END of a word
-		gr.inWord = false
+		// another word may start right here (no separator, for instance between ideographs)
+		gr.inWord = gr.pos < len(gr.src.text) && unicode.Is(ucd.Word, gr.src.text[gr.pos])
 		return true
 	}
 
